@@ -57,9 +57,12 @@ func CopyPlacer(srcPath, dstPath fs.AbsolutePath, _ bool) (Janitor, error) {
 		}
 		defer body.Close()
 		fmeta.Name = dstPath.CoerceRelative()
+		if err := fsOp.PlaceFile(rootFs, *fmeta, body, false); err != nil {
+			return nil, Errorf(rio.ErrInoperablePath, "error placing with copy placer: %s", err)
+		}
 		return copyJanitor{
 			dstPath,
-		}, fsOp.PlaceFile(rootFs, *fmeta, body, false)
+		}, nil
 	case fs.Type_Symlink:
 		panic("TODO copy placer support for symlinks")
 	}
@@ -89,7 +92,7 @@ func CopyPlacer(srcPath, dstPath fs.AbsolutePath, _ bool) (Janitor, error) {
 		return nil
 	}
 	if err := fs.Walk(srcFs, preVisit, postVisit); err != nil {
-		return nil, err
+		return nil, Errorf(rio.ErrInoperablePath, "error placing with copy placer: %s", err)
 	}
 
 	// Return a cleanup func that does a recursive delete.
